@@ -952,3 +952,338 @@ Proof.
       - intros X. inversion X as [X']. apply A in X'. rewrite X'. reflexivity. }
     intros Hex. simpl. rewrite (get_status_modes_agree md5 v c fs d (l_name t) df Hex Hnc). reflexivity.
 Qed.
+
+(* ================================================================== clean [--dry-run] over clean lists
+   (Introspect.v, last part) *)
+Lemma cemit_ev w e x : In x (c_ev (cemit w e)) <-> In x (c_ev w) \/ x = e.
+Proof. simpl. rewrite in_app_iff. simpl. intuition. Qed.
+
+(* ---- clean_targets: prints only; removes only when not dry *)
+Lemma ctarget_db t dry w f : c_db (ctarget t dry w f) = c_db w.
+Proof. unfold ctarget. destruct (mem f (c_fs w)); [destruct dry|]; reflexivity. Qed.
+Lemma ctarget_fs_dry t w f : c_fs (ctarget t true w f) = c_fs w.
+Proof. unfold ctarget. destruct (mem f (c_fs w)); reflexivity. Qed.
+Lemma ctarget_ev t dry w f x :
+  In x (c_ev (ctarget t dry w f)) <-> In x (c_ev w) \/ (x = VMsg t f /\ mem f (c_fs w) = true).
+Proof.
+  unfold ctarget. destruct (mem f (c_fs w)).
+  - destruct dry; simpl; rewrite in_app_iff; simpl; intuition.
+  - intuition. discriminate.
+Qed.
+
+Lemma ctargets_fold_db t dry : forall L w, c_db (fold_left (ctarget t dry) L w) = c_db w.
+Proof. induction L as [|f L IH]; intros w; simpl; auto. rewrite IH. apply ctarget_db. Qed.
+Lemma ctargets_fold_fs_dry t : forall L w, c_fs (fold_left (ctarget t true) L w) = c_fs w.
+Proof. induction L as [|f L IH]; intros w; simpl; auto. rewrite IH. apply ctarget_fs_dry. Qed.
+Lemma ctargets_fold_ev t dry : forall L w x,
+  In x (c_ev (fold_left (ctarget t dry) L w)) -> In x (c_ev w) \/ exists f, x = VMsg t f.
+Proof.
+  induction L as [|f L IH]; intros w x H; simpl in H; auto.
+  apply IH in H. destruct H as [H|H]; auto. apply ctarget_ev in H. destruct H as [H|[H _]]; eauto.
+Qed.
+Lemma ctargets_fold_keeps t dry : forall L w x, In x (c_ev w) -> In x (c_ev (fold_left (ctarget t dry) L w)).
+Proof. induction L as [|f L IH]; intros w x H; simpl; auto. apply IH. apply ctarget_ev. auto. Qed.
+
+Lemma ctargets_db t tg dry w : c_db (ctargets t tg dry w) = c_db w.
+Proof. apply ctargets_fold_db. Qed.
+Lemma ctargets_fs_dry t tg w : c_fs (ctargets t tg true w) = c_fs w.
+Proof. apply ctargets_fold_fs_dry. Qed.
+Lemma ctargets_exec t tg dry w t' i fl :
+  In (VExec t' i fl) (c_ev (ctargets t tg dry w)) <-> In (VExec t' i fl) (c_ev w).
+Proof.
+  split.
+  - intros H. apply ctargets_fold_ev in H. destruct H as [H|[f H]]; [exact H|discriminate].
+  - apply ctargets_fold_keeps.
+Qed.
+Lemma ctargets_ev t tg dry w x :
+  In x (c_ev (ctargets t tg dry w)) -> In x (c_ev w) \/ exists f, x = VMsg t f.
+Proof. apply ctargets_fold_ev. Qed.
+
+(* ---- one action *)
+Definition flag_of (a : cact) (dry : bool) : option bool := if takes_dryrun a then Some dry else None.
+
+Lemma exec_act_db t tg i dry a w : c_db (exec_act t tg i dry a w) = c_db w.
+Proof. destruct a; simpl; auto. rewrite ctargets_db. reflexivity. Qed.
+
+Lemma exec_act_exec t tg i dry a w t' i' fl :
+  In (VExec t' i' fl) (c_ev (exec_act t tg i dry a w)) <->
+  In (VExec t' i' fl) (c_ev w) \/ (t' = t /\ i' = i /\ fl = flag_of a dry).
+Proof.
+  assert (E : forall f, VExec t' i' fl = VExec t i f <-> t' = t /\ i' = i /\ fl = f).
+  { intros f. split; [intros H; inversion H; auto | intros (-> & -> & ->); reflexivity]. }
+  destruct a; unfold flag_of; simpl.
+  - rewrite ctargets_exec. rewrite cemit_ev. rewrite E. reflexivity.
+  - rewrite in_app_iff. simpl. rewrite <- E. intuition.
+  - rewrite in_app_iff. simpl. rewrite <- E. intuition.
+  - rewrite in_app_iff. simpl. rewrite <- E. intuition.
+Qed.
+
+Lemma exec_act_ev t tg i dry a w x :
+  In x (c_ev (exec_act t tg i dry a w)) -> In x (c_ev w) \/ x = VExec t i (flag_of a dry) \/ exists f, x = VMsg t f.
+Proof.
+  destruct a; unfold flag_of; simpl.
+  - intros H. apply ctargets_ev in H. destruct H as [H|H]; auto. apply cemit_ev in H. intuition.
+  - rewrite in_app_iff. simpl. intuition.
+  - rewrite in_app_iff. simpl. intuition.
+  - rewrite in_app_iff. simpl. intuition.
+Qed.
+
+Lemma exec_act_fs_dry t tg i a w : takes_dryrun a = true -> honours a -> c_fs (exec_act t tg i true a w) = c_fs w.
+Proof.
+  destruct a; simpl; try discriminate; intros _ H.
+  - rewrite ctargets_fs_dry. reflexivity.
+  - rewrite H. reflexivity.
+Qed.
+
+(* ---- the loop over the clean actions: action k of the list (index i0 + k) is invoked iff
+   the run is not a dry-run or the action itself takes `dryrun`; nothing else about the list matters *)
+Definition invoked (dry : bool) (a : cact) : Prop := dry = false \/ takes_dryrun a = true.
+
+Lemma cclean_actions_exec t tg dry : forall acts i0 w t' i fl,
+  In (VExec t' i fl) (c_ev (cclean_actions t tg dry i0 acts w)) <->
+  In (VExec t' i fl) (c_ev w) \/
+  (t' = t /\ exists k a, i = (i0 + k)%nat /\ nth_error acts k = Some a /\ invoked dry a /\ fl = flag_of a dry).
+Proof.
+  induction acts as [|a r IH]; intros i0 w t' i fl.
+  - simpl. split; auto. intros [H|(_ & k & a & _ & H & _)]; auto. destruct k; discriminate.
+  - simpl cclean_actions. rewrite IH.
+    assert (W2 : In (VExec t' i fl) (c_ev (if negb dry || takes_dryrun a
+                                           then exec_act t tg i0 dry a (cemit w (VAnnounce t i0)) else cemit w (VAnnounce t i0))) <->
+                 In (VExec t' i fl) (c_ev w) \/ (t' = t /\ i = i0 /\ invoked dry a /\ fl = flag_of a dry)).
+    { destruct (negb dry || takes_dryrun a) eqn:C.
+      - rewrite exec_act_exec, cemit_ev.
+        assert (I : invoked dry a). { unfold invoked. destruct dry; simpl in C; auto. }
+        split.
+        + intros [[H|H]|H]; auto; [discriminate|]. right. tauto.
+        + intros [H|H]; auto. right. tauto.
+      - rewrite cemit_ev. split.
+        + intros [H|H]; auto. discriminate.
+        + intros [H|(_ & _ & [I|I] & _)]; auto; exfalso.
+          * subst dry. discriminate.
+          * rewrite I in C. rewrite orb_true_r in C. discriminate. }
+    rewrite W2. split.
+    + intros [[H|(-> & -> & I & F)]|(-> & k & a' & E & N & I & F)]; auto.
+      * right. split; auto. exists 0%nat, a. rewrite Nat.add_0_r. auto.
+      * right. split; auto. exists (S k), a'. split; [lia|]. auto.
+    + intros [H|(-> & k & a' & E & N & I & F)]; auto.
+      destruct k as [|k]; simpl in N.
+      * inversion N; subst a'. left. right. rewrite Nat.add_0_r in E. auto.
+      * right. split; auto. exists k, a'. split; [lia|]. auto.
+Qed.
+
+Lemma cclean_actions_ev t tg dry : forall acts i0 w x,
+  In x (c_ev (cclean_actions t tg dry i0 acts w)) ->
+  In x (c_ev w) \/ (exists i, x = VAnnounce t i) \/ (exists f, x = VMsg t f) \/ (exists i fl, x = VExec t i fl).
+Proof.
+  induction acts as [|a r IH]; intros i0 w x H; simpl in H; auto.
+  apply IH in H. destruct H as [H|H]; auto.
+  assert (A : In x (c_ev (cemit w (VAnnounce t i0))) -> In x (c_ev w) \/ (exists i, x = VAnnounce t i)).
+  { intros X. apply cemit_ev in X. destruct X; eauto. }
+  destruct (negb dry || takes_dryrun a).
+  - apply exec_act_ev in H. destruct H as [H|[H|H]]; eauto 6. apply A in H. tauto.
+  - apply A in H. tauto.
+Qed.
+
+Lemma cclean_actions_db t tg dry : forall acts i0 w, c_db (cclean_actions t tg dry i0 acts w) = c_db w.
+Proof.
+  induction acts as [|a r IH]; intros i0 w; simpl; auto. rewrite IH.
+  destruct (negb dry || takes_dryrun a); [rewrite exec_act_db|]; reflexivity.
+Qed.
+
+Lemma cclean_actions_fs_dry t tg : forall acts i0 w,
+  (forall a, In a acts -> honours a) -> c_fs (cclean_actions t tg true i0 acts w) = c_fs w.
+Proof.
+  induction acts as [|a r IH]; intros i0 w Hh; simpl; auto.
+  rewrite IH; [|intros; apply Hh; right; auto].
+  destruct (takes_dryrun a) eqn:E; simpl; auto.
+  rewrite exec_act_fs_dry; auto. apply Hh. left; auto.
+Qed.
+
+(* every action is announced, whether executed or not *)
+Lemma cclean_actions_announce t tg dry : forall acts i0 w k,
+  (k < length acts)%nat -> In (VAnnounce t (i0 + k)) (c_ev (cclean_actions t tg dry i0 acts w)).
+Proof.
+  assert (K : forall acts i0 w x, In x (c_ev w) -> In x (c_ev (cclean_actions t tg dry i0 acts w))).
+  { induction acts as [|a r IH]; intros i0 w x H; simpl; auto. apply IH.
+    destruct (negb dry || takes_dryrun a).
+    - destruct a; simpl; try (rewrite !in_app_iff; simpl; tauto).
+      apply ctargets_fold_keeps. rewrite !cemit_ev. auto.
+    - apply cemit_ev. auto. }
+  induction acts as [|a r IH]; intros i0 w k Hk; simpl in Hk; [lia|].
+  simpl. destruct k as [|k].
+  - rewrite Nat.add_0_r. apply K. destruct (negb dry || takes_dryrun a).
+    + destruct a; simpl; try (rewrite !in_app_iff; simpl; tauto).
+      apply ctargets_fold_keeps. rewrite !cemit_ev. auto.
+    + apply cemit_ev. auto.
+  - replace (i0 + S k)%nat with (S i0 + k)%nat by lia. apply IH. lia.
+Qed.
+
+(* ---- one task, a list of tasks, the command *)
+Lemma ctask_clean_db t dry w : c_db (ctask_clean t dry w) = c_db w.
+Proof. unfold ctask_clean. destruct (ct_clean t); [rewrite cclean_actions_db | rewrite ctargets_db]; reflexivity. Qed.
+
+Lemma ctask_clean_fs_dry t w : honest t -> c_fs (ctask_clean t true w) = c_fs w.
+Proof.
+  intros H. unfold ctask_clean. destruct (ct_clean t) as [acts|] eqn:E.
+  - rewrite cclean_actions_fs_dry; auto. intros a Ha. exact (H acts a E Ha).
+  - rewrite ctargets_fs_dry. reflexivity.
+Qed.
+
+Lemma ctask_clean_ev_dry tb t w x : In t tb ->
+  In x (c_ev (ctask_clean t true w)) -> In x (c_ev w) \/ dry_ok tb x.
+Proof.
+  intros Ht. unfold ctask_clean. destruct (ct_clean t) as [acts|] eqn:E; intros H.
+  - destruct x as [n d|n i|n i fl|n f]; try (right; exact I).
+    + apply cclean_actions_ev in H. destruct H as [H|[[i H]|[[f H]|[i [fl H]]]]]; try discriminate.
+      apply cemit_ev in H. destruct H as [H|H]; auto. inversion H; subst. right. reflexivity.
+    + apply cclean_actions_exec in H. destruct H as [H|(-> & k & a & -> & N & [I|I] & F)]; [|discriminate|].
+      * apply cemit_ev in H. destruct H as [H|H]; [auto|discriminate].
+      * right. unfold flag_of in F. rewrite I in F. split; [exact F|].
+        exists t, acts, a. simpl. auto.
+  - apply ctargets_ev in H. destruct H as [H|[f ->]]; [|right; exact I].
+    apply cemit_ev in H. destruct H as [H| ->]; auto. right. reflexivity.
+Qed.
+
+Lemma cclean_tasks_dry tb forget : forall ts cleaned w l w',
+  (forall t, In t ts -> In t tb) ->
+  cclean_tasks true forget ts cleaned w = (l, w') ->
+  c_db w' = c_db w /\
+  (forall x, In x (c_ev w') -> In x (c_ev w) \/ dry_ok tb x) /\
+  ((forall t, In t ts -> honest t) -> c_fs w' = c_fs w).
+Proof.
+  induction ts as [|t ts IH]; intros cleaned w l w' Hin H; simpl in H.
+  - inversion H; subst. auto.
+  - destruct (mem (ct_name t) cleaned).
+    + destruct (IH _ _ _ _ (fun u Hu => Hin u (or_intror Hu)) H) as (A & B & C).
+      split; auto. split; auto. intros Hh. apply C. intros u Hu. apply Hh. right; auto.
+    + rewrite andb_false_r in H.
+      destruct (cclean_tasks true forget ts (ct_name t :: cleaned) (ctask_clean t true w)) as [l1 w3] eqn:E.
+      inversion H; subst.
+      destruct (IH _ _ _ _ (fun u Hu => Hin u (or_intror Hu)) E) as (A & B & C).
+      split; [rewrite A; apply ctask_clean_db|]. split.
+      * intros x Hx. destruct (B x Hx) as [X|X]; auto.
+        apply (ctask_clean_ev_dry tb t w x (Hin t (or_introl eq_refl))) in X. exact X.
+      * intros Hh. rewrite C; [|intros u Hu; apply Hh; right; auto].
+        apply ctask_clean_fs_dry. apply Hh. left; auto.
+Qed.
+
+Lemma clookup_In : forall tb n t, clookup tb n = Some t -> In t tb /\ ct_name t = n.
+Proof.
+  induction tb as [|u tb IH]; intros n t H; simpl in H; [discriminate|].
+  destruct (N.eqb (ct_name u) n) eqn:E.
+  - inversion H; subst. apply N.eqb_eq in E. split; [left|]; auto.
+  - destruct (IH _ _ H). split; [right|]; auto.
+Qed.
+Lemma clookup_all_In tb : forall l ts, clookup_all tb l = Some ts -> forall t, In t ts -> In t tb.
+Proof.
+  induction l as [|n l IH]; intros ts H t Ht; simpl in H.
+  - inversion H; subst. destruct Ht.
+  - destruct (clookup tb n) as [u|] eqn:E; [|discriminate].
+    destruct (clookup_all tb l) as [us|] eqn:E2; [|discriminate]. inversion H; subst.
+    destruct Ht as [<-|Ht]; [exact (proj1 (clookup_In _ _ _ E))|eauto].
+Qed.
+
+Lemma cclean_cmd_inv pat fnmatch tb o w l w' :
+  cclean_cmd pat fnmatch tb o w = Clean.Ok (l, w') ->
+  exists order ts, Clean.clean_order pat fnmatch (map to_clean_task tb) o = Clean.Ok order /\
+                   clookup_all tb order = Some ts /\
+                   cclean_tasks (Clean.o_dryrun o) (Clean.o_forget o) ts [] w = (l, w').
+Proof.
+  unfold cclean_cmd. destruct (Clean.clean_order pat fnmatch (map to_clean_task tb) o) as [order| | |]; try discriminate.
+  destruct (clookup_all tb order) as [ts|] eqn:E; [|discriminate].
+  intros H. inversion H as [H1]. exists order, ts. auto.
+Qed.
+
+(* the invocation of the actions of one clean list, as Properties/C20.v states it *)
+Lemma T_clean_action_invoked_iff : forall (t : name) (tg : list file) (dry : bool) (acts : list cact) (w : cworld)
+    (t' : name) (i : nat) (fl : option bool),
+  In (VExec t' i fl) (c_ev (cclean_actions t tg dry 0 acts w)) <->
+  In (VExec t' i fl) (c_ev w) \/
+  (t' = t /\ exists a, nth_error acts i = Some a /\ (dry = false \/ takes_dryrun a = true) /\
+                       fl = if takes_dryrun a then Some dry else None).
+Proof.
+  intros t tg dry acts w t' i fl. rewrite cclean_actions_exec. split.
+  - intros [H|(-> & k & a & -> & N & I & F)]; auto. right. split; auto. exists a. auto.
+  - intros [H|(-> & a & N & I & F)]; auto. right. split; auto. exists i, a. auto.
+Qed.
+
+Lemma T_clean_dryrun_invoked_iff : forall (t : name) (tg : list file) (acts : list cact) (fs : cfs) (d : db) (i : nat) (fl : option bool),
+  In (VExec t i fl) (c_ev (cclean_actions t tg true 0 acts {| c_fs := fs; c_db := d; c_ev := [] |})) <->
+  exists a, nth_error acts i = Some a /\ takes_dryrun a = true /\ fl = Some true.
+Proof.
+  intros t tg acts fs d i fl. rewrite T_clean_action_invoked_iff. simpl. split.
+  - intros [[]|(_ & a & N & [I|I] & F)]; [discriminate|]. exists a. rewrite I in F. auto.
+  - intros (a & N & I & F). right. split; auto. exists a. rewrite I. auto.
+Qed.
+
+Lemma T_clean_announces_all : forall (t : name) (tg : list file) (dry : bool) (acts : list cact) (w : cworld) (i : nat),
+  (i < length acts)%nat -> In (VAnnounce t i) (c_ev (cclean_actions t tg dry 0 acts w)).
+Proof. intros t tg dry acts w i H. exact (cclean_actions_announce t tg dry acts 0%nat w i H). Qed.
+
+Lemma T_clean_list_dryrun_frame : forall (t : name) (tg : list file) (acts : list cact) (w : cworld),
+  let w' := cclean_actions t tg true 0 acts w in
+  c_db w' = c_db w /\
+  ((forall a, In a acts -> honours a) -> c_fs w' = c_fs w) /\
+  (forall t' i fl, In (VExec t' i fl) (c_ev w') -> In (VExec t' i fl) (c_ev w) \/
+     (t' = t /\ fl = Some true /\ exists a, nth_error acts i = Some a /\ takes_dryrun a = true)).
+Proof.
+  intros t tg acts w. cbv zeta. split; [apply cclean_actions_db|]. split; [apply cclean_actions_fs_dry|].
+  intros t' i fl H. apply T_clean_action_invoked_iff in H. destruct H as [H|(-> & a & N & [I|I] & F)]; auto; [discriminate|].
+  right. rewrite I in F. split; auto. split; auto. exists a. auto.
+Qed.
+
+Lemma T_cclean_dryrun_frame : forall (pat : Type) (fnmatch : name -> pat -> bool) (tb : ctable) (o : Clean.opts pat) (w : cworld) l w',
+  cclean_cmd pat fnmatch tb o w = Clean.Ok (l, w') -> Clean.o_dryrun o = true ->
+  (forall x, c_db w' x = c_db w x) /\
+  (forall e, In e (c_ev w') -> In e (c_ev w) \/ dry_ok tb e) /\
+  ((forall t, In t tb -> honest t) -> c_fs w' = c_fs w).
+Proof.
+  intros pat fnmatch tb o w l w' H Hd.
+  destruct (cclean_cmd_inv pat fnmatch tb o w l w' H) as (order & ts & _ & Hl & Hc). rewrite Hd in Hc.
+  destruct (cclean_tasks_dry tb _ ts [] w l w' (clookup_all_In tb order ts Hl) Hc) as (A & B & C).
+  split; [intros x; rewrite A; reflexivity|]. split; [exact B|].
+  intros Hh. apply C. intros t Ht. apply Hh. exact (clookup_all_In tb order ts Hl t Ht).
+Qed.
+
+(* the tasks handed to Task.clean, in order, are those of Model/Clean.v's command (C14) *)
+Lemma cclean_tasks_names dry forget : forall ts cleaned w,
+  fst (cclean_tasks dry forget ts cleaned w) =
+  fst (Clean.clean_tasks dry forget (map to_clean_task ts) cleaned {| Clean.w_fs := []; Clean.w_db := []; Clean.w_ev := [] |}).
+Proof.
+  assert (G : forall ts cleaned w cw, fst (cclean_tasks dry forget ts cleaned w) = fst (Clean.clean_tasks dry forget (map to_clean_task ts) cleaned cw)).
+  { induction ts as [|t ts IH]; intros cleaned w cw; simpl; auto.
+    destruct (mem (ct_name t) cleaned); [apply IH|].
+    match goal with |- fst (let '(l, w3) := ?X in _) = fst (let '(l', w3') := ?Y in _) =>
+      pose proof (IH (ct_name t :: cleaned)) as E; destruct X as [l1 w1] eqn:E1; destruct Y as [l2 w2] eqn:E2 end.
+    simpl. f_equal.
+    match type of E1 with cclean_tasks _ _ _ _ ?W = _ => match type of E2 with Clean.clean_tasks _ _ _ _ ?CW = _ =>
+      specialize (E W CW); rewrite E1, E2 in E; exact E end end. }
+  intros. apply G.
+Qed.
+
+Lemma clookup_map tb n : Clean.lookup (map to_clean_task tb) n = option_map to_clean_task (clookup tb n).
+Proof. induction tb as [|t tb IH]; simpl; auto. destruct (N.eqb (ct_name t) n); auto. Qed.
+Lemma clookup_all_map tb : forall l ts, clookup_all tb l = Some ts ->
+  Clean.lookup_all (map to_clean_task tb) l = Some (map to_clean_task ts).
+Proof.
+  induction l as [|n l IH]; intros ts H; simpl in *.
+  - inversion H; reflexivity.
+  - rewrite clookup_map. destruct (clookup tb n) as [u|]; [|discriminate].
+    destruct (clookup_all tb l) as [us|]; [|discriminate]. inversion H; subst.
+    simpl. rewrite (IH us eq_refl). reflexivity.
+Qed.
+
+(* the tasks cleaned, in order, are exactly those of Model/Clean.v's command on the same table: what C14
+   proves about that list (selected tasks, once, dependents first) holds for [cclean_cmd] *)
+Lemma T_cclean_cleaned_is_C14 : forall (pat : Type) (fnmatch : name -> pat -> bool) (tb : ctable) (o : Clean.opts pat) (w : cworld) l w',
+  cclean_cmd pat fnmatch tb o w = Clean.Ok (l, w') ->
+  exists cw', Clean.clean_execute pat fnmatch (map to_clean_task tb) o
+                {| Clean.w_fs := []; Clean.w_db := []; Clean.w_ev := [] |} = Clean.Ok (l, cw').
+Proof.
+  intros pat fnmatch tb o w l w' H.
+  destruct (cclean_cmd_inv pat fnmatch tb o w l w' H) as (order & ts & Ho & Hl & Hc).
+  unfold Clean.clean_execute. rewrite Ho. rewrite (clookup_all_map tb order ts Hl).
+  pose proof (cclean_tasks_names (Clean.o_dryrun o) (Clean.o_forget o) ts [] w) as E. rewrite Hc in E. simpl in E.
+  destruct (Clean.clean_tasks (Clean.o_dryrun o) (Clean.o_forget o) (map to_clean_task ts) [] _) as [l2 cw2] eqn:E2.
+  simpl in E. subst l2. exists cw2. reflexivity.
+Qed.
